@@ -23,6 +23,7 @@ var c19Vals = []c19Val{
 	{`[[1, 2, 3, 4, 5, 6, 7, 8, 9], {"k": 1, 0: 2, 1: 3, 2: 4, 3: 5}]`, "[[1], {}]", "array"},
 	{"func(x) { x + 1 }", "func(x) { x + 2 }", "func"}, {"x => x", "x => x * 2", "func"},
 	{"[0, 1, 2, 3, 4, 5, 6, 7, 8, 9, 10, 11]", "[0, 1, 2, 3, 4, 5, 6, 7, 8, 9, 10, 12]", "array"},
+	{"2.0", "3.0", "float"}, {"0", "1", "int"}, {"-0.0", "1.0", "float"},
 }
 
 // mutation attempts; %C = constant name, %v = the new value
@@ -45,6 +46,21 @@ var c19Scopes = []struct{ name, tpl string }{
 	{"nested", "func() { func() { %s; println(\"in\", %C) }() }()"},
 	{"loop", "for 2 { %s; println(\"in\", %C) }"},
 	{"func-loop", "func() { for k9 = 2 { %s }; println(\"in\", %C) }()"},
+}
+
+// c19Twin is the same number in the other numeric type ("" when there is none).
+func c19Twin(src string) string {
+	switch src {
+	case "5":
+		return "5.0"
+	case "2.0":
+		return "2"
+	case "-0.0":
+		return "0"
+	case "0":
+		return "-0.0"
+	}
+	return ""
 }
 
 func c19Render(tpl, cname, v string) string {
@@ -114,6 +130,106 @@ func c19One(cname string, val c19Val, attempts []string, labels []string) *core.
 	return nil
 }
 
+// Several bindings of one constant name (K): a global one, one local to a function and captured by a closure, one that
+// is a parameter captured by a closure. Each binding keeps its value whatever happens to the others.
+var c19ClosureActions = []string{
+	"func mk() { K = 1; () => K }; h = mk()", // closure over a function-local constant
+	"func mk2(K) { () => K }; h2 = mk2(10)",  // closure over a constant-named parameter
+	"K = 2", "K = 3", "del(K)", "println(K)", "func rd() { K }; println(rd())", "println(h())", "println(h2())", "func wr() { K = 4 }; wr()", "x = K",
+}
+
+func c19Closures(c *core.Ctx) int {
+	depth := 5
+	if c.Quick() {
+		depth = 4
+	}
+	n := 0
+	enumTuples(len(c19ClosureActions), depth, func(idx []int) bool {
+		if c.P.Evals&0xff == 0 && c.Expired() {
+			return false
+		}
+		key := fmt.Sprint(idx)
+		n++ // (all workers enumerate the same histories; each runs its share)
+		if !c.Mine("closures", key) {
+			return true
+		}
+		var acts []string
+		for _, i := range idx {
+			acts = append(acts, c19ClosureActions[i])
+		}
+		cs := core.Case{Kind: "closures", Data: strings.Join(acts, " ;; ")}
+		c.Current(cs)
+		v := c.Run(func() *core.Viol {
+			var recs [2][]string
+			for k, noReg := range []bool{false, true} {
+				x := newSess(sessCfg{noReg: noReg})
+				global := "" // value of the global K, "" = unbound
+				hasH, hasH2 := false, false
+				for step, i := range idx {
+					r := x.step(c19ClosureActions[i])
+					recs[k] = append(recs[k], r.String())
+					failed := len(r.errs) > 0 || r.panicked
+					switch i {
+					case 0:
+						hasH = hasH || !failed
+					case 1:
+						hasH2 = hasH2 || !failed
+					case 2, 3, 9:
+						nv := map[int]string{2: "2", 3: "3", 9: "4"}[i]
+						if global == "" {
+							if i != 9 { // (inside wr() an unbound K is a local of wr)
+								global = nv
+							}
+						} else if global != nv && !failed {
+							return &core.Viol{Class: "constant-changed@closures", Detail: fmt.Sprintf("noReg=%v step %d: %q succeeded although the global K is %s", noReg, step, c19ClosureActions[i], global), Case: cs}
+						}
+					case 4:
+						if !failed {
+							global = ""
+						}
+					}
+					if r.panicked {
+						return &core.Viol{Class: "panic@closures", Detail: r.String(), Case: cs}
+					}
+					// every binding still has its value
+					want := map[string]string{}
+					if hasH {
+						want["h()"] = "1"
+					}
+					if hasH2 {
+						want["h2()"] = "10"
+					}
+					if global != "" {
+						want["K"] = global
+						want["func rd9() { K }; rd9()"] = global
+					}
+					for expr, w := range want {
+						got := implEval(x, expr, 10000)
+						if got.isErr || got.val != "I:"+w {
+							return &core.Viol{Class: "constant-changed@closures", Detail: fmt.Sprintf("noReg=%v after step %d (%q): %s evaluates to %q %s, its binding holds %s", noReg, step, c19ClosureActions[i], expr, got.val, got.errText, w), Case: cs}
+						}
+					}
+				}
+			}
+			for i := range recs[0] {
+				if recs[0][i] != recs[1][i] {
+					return &core.Viol{Class: "registers-differ@closures", Detail: fmt.Sprintf("step %d: registers on %s, off %s", i, recs[0][i], recs[1][i]), Case: cs}
+				}
+			}
+			return nil
+		})
+		out := "unchanged"
+		if v != nil {
+			out = v.Class
+		}
+		c.Count("closures: "+key, out, true)
+		c.P.Traces++
+		c.P.Transitions += int64(len(idx)) * 2
+		return true
+	})
+	return n
+}
+
 func runC19(c *core.Ctx) {
 	do := func(cname string, val c19Val, attempts []string, labels []string) bool {
 		if c.P.Evals&0xff == 0 && c.Expired() {
@@ -141,7 +257,11 @@ func runC19(c *core.Ctx) {
 		for _, val := range c19Vals {
 			for _, p := range c19Paths {
 				for _, sc := range c19Scopes {
-					for _, nv := range []string{val.other, val.src, "77", `"z"`} {
+					nvs := []string{val.other, val.src, "77", `"z"`}
+					if tw := c19Twin(val.src); tw != "" {
+						nvs = append(nvs, tw) // the same number in the other numeric type
+					}
+					for _, nv := range nvs {
 						at := c19Render(strings.Replace(sc.tpl, "%s", p, 1), cname, nv)
 						if ok = do(cname, val, []string{at}, []string{p + " [" + sc.name + "]"}); !ok {
 							break
@@ -170,6 +290,45 @@ func runC19(c *core.Ctx) {
 			}
 		}
 		bound += fmt.Sprintf("; every ordered pair of attempts (second one inside a function) for %d values", len(vals))
+	}
+	if ok {
+		// every constant-shaped name of <=4 characters over {A Z 1 _} x the paths that go through the name classifier
+		var cnames []string
+		var gen func(cur string)
+		gen = func(cur string) {
+			if cur != "" {
+				cnames = append(cnames, cur)
+			}
+			if len(cur) == 4 {
+				return
+			}
+			for _, ch := range "AZ1_" {
+				if cur == "" && (ch == '1' || ch == '_') {
+					continue
+				}
+				gen(cur + string(ch))
+			}
+		}
+		gen("")
+		paths := []string{"%C = %v", "%C := %v", "%C++", "--%C", "%C[0] = %v", "del(%C[0])", "for %C = 3 { println(\"in\", %C) }", "for %C = [7] { println(\"in\", %C) }",
+			"func(%C) { println(\"in\", %C) }(%v)", "func() { %C = %v }()", "func() { func() { %C = %v }() }()", "func(%C) { %C = %v; println(\"in\", %C) }(1)", "%C.k = %v"}
+		for _, cname := range cnames {
+			for _, val := range []c19Val{c19Vals[0], c19Vals[5], c19Vals[8]} {
+				for _, p := range paths {
+					for _, sc := range c19Scopes[:2] {
+						at := c19Render(strings.Replace(sc.tpl, "%s", p, 1), cname, val.other)
+						if ok = do(cname, val, []string{at}, []string{p + " [" + sc.name + "] name-shape"}); !ok {
+							break
+						}
+					}
+				}
+			}
+		}
+		bound += fmt.Sprintf("; every constant-shaped name of <=4 characters over {A Z 1 _} (%d names) x %d paths x 3 values x 2 scopes", len(cnames), len(paths))
+	}
+	if ok {
+		n := c19Closures(c)
+		bound += fmt.Sprintf("; %d histories of <=%d steps over constants of the same name bound in several scopes (global, function-local captured by a closure, parameter captured by a closure): define, read from each scope, redefine, delete, rebind - against a reference model of each binding", n, map[bool]int{true: 4, false: 5}[c.Quick()])
 	}
 	if ok && !c.Quick() {
 		// thorough: every ordered triple of attempts (top level, in a function, in a loop in a function) for three values
@@ -205,9 +364,9 @@ func runC19(c *core.Ctx) {
 
 func init() {
 	core.Register(&core.Check{
-		ID:    "C19",
-		Level: "model_checking",
-		Rule: "exhaustive product on one session per case: an all-upper-case name bound to each of 12 values (scalars, nil, small and large arrays and maps, nested large containers, named function, lambda) x 45 mutation paths (=, :=, ++/--, index and dot assignment, element deletion, loop-variable and parameter use, assignment from nested functions and closures called later, eval(), aliases, + merges, passing to mutating functions, slices/rest of it) x 5 scopes (top level, function, nested function, loop body, loop inside function) x 4 new values, plus every ordered pair of attempts. Invariant after every attempt: the name evaluates at top level to a dump equal to the original; a succeeding attempt never makes it print differently inside its scope; no panic; identical records with registers on and off; explicit del() then rebinding works. Non-trivial = every case; distinct by text.",
+		ID:          "C19",
+		Level:       "model_checking",
+		Rule:        "exhaustive product on one session per case: an all-upper-case name bound to each of 12 values (scalars, nil, small and large arrays and maps, nested large containers, named function, lambda) x 45 mutation paths (=, :=, ++/--, index and dot assignment, element deletion, loop-variable and parameter use, assignment from nested functions and closures called later, eval(), aliases, + merges, passing to mutating functions, slices/rest of it) x 5 scopes (top level, function, nested function, loop body, loop inside function) x 4 new values, plus every ordered pair of attempts. Invariant after every attempt: the name evaluates at top level to a dump equal to the original; a succeeding attempt never makes it print differently inside its scope; no panic; identical records with registers on and off; explicit del() then rebinding works. Non-trivial = every case; distinct by text.",
 		Assume:      []string{"observation through the evaluator's own Eval of the constant's name and println inside scopes"},
 		QuickCap:    100 * time.Second,
 		ThoroughCap: 20 * time.Minute,
